@@ -231,7 +231,9 @@ func (la *LeapArray) currentBucketOfTime(now uint64, bg BucketGenerator) (*Bucke
 
 func (la *LeapArray) calculateTimeIdx(now uint64) int {
 	timeId := now / uint64(la.bucketLengthInMs)
-	return int(timeId) % la.array.length
+	// (the remainder is taken before the conversion: where int has 32 bits, today's bucket numbers do not
+	// fit into it, the index came out negative, no bucket was found under it and every recorder span for ever)
+	return int(timeId % uint64(la.array.length))
 }
 
 // Values returns all valid (non-expired) buckets between [curBucketEnd-windowInterval, curBucketEnd],
